@@ -235,7 +235,13 @@ Expands(mode, rss, interp) == rss /\ mode = "double-quote" /\ ~interp /\ TRUE
 (* Command.commandLine.  mode junk: the constructor refuses.  Not expanding: executable + " " + raw (a rewrite rule acts on   *)
 (* the text as written).  Expanding: pass 1 of every token; an argument string the shell cannot parse has no rendering:      *)
 (* the promise is a rejection, the code returns the EMPTY string.  Blank arguments are not sent through a shell.             *)
-Render(toks, mode, rss, rw, interp) ==
+(* An Executor wrapped around the command (mpirun, docker ... in front of it): its command line is its own executable, its own   *)
+(* arguments -- expanded with ITS OWN variables (V=exec) -- and then the target's command line; its environment is its own         *)
+(* overlaid by the target's (the target wins: V=val, E=e); a rewrite rule reaches both.                                            *)
+Wrapped(wrap, rw, line) == IF wrap THEN Root(rw) \o "/bin/tool -x exec " \o line ELSE line
+WrapEnv == [V |-> "val", E |-> "e"]
+
+Render(toks, mode, rss, rw, interp, wrap) ==
   LET exe == Root(rw) \o "/bin/dump" IN
   IF mode \notin {"double-quote", "none"} THEN [ok |-> FALSE, line |-> "", argv |-> <<>>, ran |-> FALSE, once |-> <<>>]
   ELSE LET exp == Expands(mode, rss, interp)
@@ -247,7 +253,7 @@ Render(toks, mode, rss, rw, interp) ==
            argv == IF ~ran THEN <<>>
                    ELSE IF ~exp THEN Flat([i \in 1..Len(toks) |-> W1(toks[i])])
                    ELSE IF AnyBroken(toks) THEN <<>> ELSE Flat([i \in 1..Len(toks) |-> W2(toks[i], rw)])
-       IN [ok |-> ok, line |-> exe \o " " \o args, argv |-> argv, ran |-> ran,
+       IN [ok |-> ok, line |-> Wrapped(wrap, rw, exe \o " " \o args), argv |-> argv, ran |-> ran,
            once |-> Flat([i \in 1..Len(toks) |-> W1(toks[i])])]
 
 -----------------------------------------------------------------------------
@@ -261,7 +267,10 @@ SysPost(sc) == <<"printenv">> \o (IF sc.hybrid THEN <<"stageout">> ELSE <<>>)
 PreSteps(sc) == UserPre(sc) \o SysPre(sc)
 PostSteps(sc) == UserPost(sc) \o SysPost(sc)
 HasPre(sc) == sc.lsfnew                      \* the task always has its own affinity step; LSF <= 9.12 has no pre-exec option
+(* pre steps: "; " (the code) or " && " (the promise: a failed step ends the chain).  Post steps are always "; ": every one of them   *)
+(* runs whatever the others did (stage-out, bookkeeping), the last one decides PDONE / PERR                                         *)
 JoinSep == IF SemicolonJoin THEN "; " ELSE " && "
+Semi(ph) == SemicolonJoin \/ ph = "post"
 
 (* the task's own steps are not scripted: what they do in the world of the driver *)
 SysRc(sc, s) == IF s = "affinity" /\ ~sc.hostfile THEN 1 ELSE 0
@@ -269,11 +278,11 @@ SysFile(s) == CASE s = "rank" -> "djobs.txt" [] s = "affinity" -> "affinity.txt"
                 [] s = "printenv" -> "environment.txt" [] OTHER -> "-"
 (* running the steps ss after a step that exited with rc0: -> <<exit code of the phase, files written>>          *)
 (* "; ": every step runs, the last one decides.  "&&": the first failure stops the chain and decides.              *)
-RECURSIVE RunSys(_, _, _, _)
-RunSys(sc, ss, rc0, fs) ==
+RECURSIVE RunSys(_, _, _, _, _)
+RunSys(sc, ss, rc0, fs, semi) ==
   IF ss = <<>> THEN <<rc0, fs>>
-  ELSE IF ~SemicolonJoin /\ rc0 # 0 THEN <<rc0, fs>>
-  ELSE RunSys(sc, Tail(ss), SysRc(sc, Head(ss)), fs \cup ({SysFile(Head(ss))} \ {"-"}))
+  ELSE IF ~semi /\ rc0 # 0 THEN <<rc0, fs>>
+  ELSE RunSys(sc, Tail(ss), SysRc(sc, Head(ss)), fs \cup ({SysFile(Head(ss))} \ {"-"}), semi)
 
 VARIABLES
   case, res,          \* part 1: the case and what Build computed (Todo before)
@@ -304,9 +313,11 @@ IdleRun == /\ sc = [npre |-> 0, npost |-> 0, mpi |-> FALSE, hybrid |-> FALSE, ls
            /\ terminated = FALSE /\ nkill = 0 /\ last = <<>> /\ obs = NoObs /\ needPoll = FALSE /\ hist = <<>>
 
 ResolveCases == [k : ExeKinds, pm : PathModes, rp : {"true", "false", "none"}, op : Ops, prior : Priors]
-RenderCases == [toks : SeqsUpTo(Tokens, MaxTok), mode : Modes, rss : BOOLEAN, rw : BOOLEAN, interp : BOOLEAN]
+RenderCases == [toks : SeqsUpTo(Tokens, MaxTok), mode : Modes, rss : BOOLEAN, rw : BOOLEAN, interp : BOOLEAN, wrap : BOOLEAN]
 (* component level: Job.command always resolves shell substitutions, no rewrite rule (local back-end) *)
-RenderOK(c) == IF CmdLevel THEN ~c.interp ELSE c.rss /\ ~c.rw /\ c.mode # "junk"
+(* at most one unbalanced token per argument string: two of them balance each other and turn what stands between them inside out *)
+RenderOK(c) == /\ Cardinality({i \in 1..Len(c.toks) : Broken(c.toks[i])}) <= 1
+               /\ IF CmdLevel THEN ~c.interp /\ (c.wrap => Len(c.toks) <= 1) ELSE c.rss /\ ~c.rw /\ ~c.wrap /\ c.mode # "junk"
 
 Odd(m, h, l, f) == (IF m THEN 1 ELSE 0) + (IF h THEN 1 ELSE 0) + (IF l THEN 0 ELSE 1) + (IF f THEN 0 ELSE 1)
 Init ==
@@ -321,7 +332,7 @@ Init ==
 
 Build == /\ Part \in {"resolve", "render"} /\ res = Todo
          /\ res' = IF Part = "resolve" THEN Resolve(case.k, case.pm, case.rp, case.op, case.prior)
-                   ELSE Render(case.toks, case.mode, case.rss, case.rw, case.interp)
+                   ELSE Render(case.toks, case.mode, case.rss, case.rw, case.interp, case.wrap)
          /\ UNCHANGED <<case, p2vars>>
 
 (* ---- what the task reports ---- *)
@@ -366,7 +377,7 @@ StartPre == /\ Part = "run" /\ phase = "pend" /\ HasPre(sc) /\ EnvOK
             /\ IF sc.npre > 0
                THEN /\ phase' = "pre" /\ cur' = "pre1" /\ started' = Append(started, "pre1")
                     /\ job' = [job EXCEPT !.stat = "RUN"] /\ files' = files
-               ELSE /\ LET r == RunSys(sc, SysPre(sc), 0, files) IN
+               ELSE /\ LET r == RunSys(sc, SysPre(sc), 0, files, Semi("pre")) IN
                         /\ files' = r[2] /\ cur' = "-"
                         /\ IF r[1] = 0 THEN phase' = "prepared" /\ job' = [job EXCEPT !.stat = "RUN"]
                            ELSE phase' = "over" /\ job' = [job EXCEPT !.stat = "EXIT", !.rc = r[1], !.info = "PRE_EXEC_FAIL"]
@@ -391,14 +402,14 @@ StepExit(rc) ==
   /\ rcs' = Append(rcs, <<cur, rc>>)
   /\ LET i == Index(cur)
          n == IF phase = "pre" THEN sc.npre ELSE sc.npost
-         goOn == i < n /\ (SemicolonJoin \/ rc = 0)
+         goOn == i < n /\ (Semi(phase) \/ rc = 0)
      IN IF goOn
         THEN /\ cur' = StepName(phase, i + 1) /\ started' = Append(started, StepName(phase, i + 1))
              /\ UNCHANGED <<phase, job, files>>
         ELSE /\ started' = started
              /\ LET tail == IF i < n THEN <<>> ELSE IF phase = "pre" THEN SysPre(sc) ELSE SysPost(sc)
                     \* with "&&" a failure before the last caller-given step skips everything that follows
-                    r == IF i < n THEN <<rc, files>> ELSE RunSys(sc, tail, rc, files)
+                    r == IF i < n THEN <<rc, files>> ELSE RunSys(sc, tail, rc, files, Semi(phase))
                 IN IF phase = "pre" THEN PreEnd(r[1], r[2]) ELSE PostEnd(r[1], r[2])
   /\ needPoll' = After
   /\ UNCHANGED <<case, res, sc, xfer, terminated, nkill, last, obs>>
@@ -422,7 +433,7 @@ MainEnd(o) == /\ Part = "run" /\ phase = "main" /\ cur = "main" /\ EnvOK
 StartPost == /\ Part = "run" /\ phase = "mainover" /\ EnvOK
              /\ IF sc.npost > 0
                 THEN phase' = "post" /\ cur' = "post1" /\ started' = Append(started, "post1") /\ UNCHANGED <<job, files>>
-                ELSE started' = started /\ LET r == RunSys(sc, SysPost(sc), 0, files) IN PostEnd(r[1], r[2])
+                ELSE started' = started /\ LET r == RunSys(sc, SysPost(sc), 0, files, TRUE) IN PostEnd(r[1], r[2])
              /\ needPoll' = After
              /\ UNCHANGED <<case, res, sc, rcs, xfer, terminated, nkill, last, obs>>
              /\ hist' = Note("StartPost", 0)
@@ -477,7 +488,7 @@ LinkKeptUnlessAsked == (Part = "resolve" /\ Built /\ res.ok /\ case.rp # "true" 
 HistoryIndependent == (Part = "resolve" /\ Built) => res = Resolve(case.k, case.pm, case.rp, case.op, "none")
 (* not expanding means verbatim *)
 VerbatimWhenNotExpanding == (Part = "render" /\ Built /\ res.ok /\ ~Expands(case.mode, case.rss, case.interp))
-                               => res.line = Root(case.rw) \o "/bin/dump " \o RawArgs(case.toks)
+                               => res.line = Wrapped(case.wrap, case.rw, Root(case.rw) \o "/bin/dump " \o RawArgs(case.toks))
 JunkModeRejected == (Part = "render" /\ Built /\ case.mode \notin {"double-quote", "none"}) => ~res.ok
 (* strong: an argument string that cannot be rendered is refused (refuted while BrokenYieldsEmpty) *)
 BrokenRejected == (Part = "render" /\ Built /\ Expands(case.mode, case.rss, case.interp) /\ AnyBroken(case.toks)) => ~res.ok
@@ -549,9 +560,9 @@ WitnessKillOverridesSuccess == ~(Running /\ terminated /\ job.stat = "DONE" /\ P
 
 -----------------------------------------------------------------------------
 (* emission                                                                 *)
-EmitBuilt == (Emit /\ Part \in {"resolve", "render"} /\ Built) => PrintT(ToJson([case |-> case, res |-> res]))
+EmitBuilt == (Emit /\ Part \in {"resolve", "render"} /\ Built) => PrintT(ToJson([case |-> case, res |-> res, wenv |-> WrapEnv]))
 ChainEnded == Running /\ phase \in {"over", "gone"} /\ ~needPoll /\ (PollMode = "end" => Polled)
-Expect == [pre |-> PreSteps(sc), post |-> PostSteps(sc), hasPre |-> HasPre(sc), sep |-> JoinSep]
+Expect == [pre |-> PreSteps(sc), post |-> PostSteps(sc), hasPre |-> HasPre(sc), sep |-> JoinSep, postsep |-> "; "]
 EmitRun == (Emit /\ ChainEnded) => PrintT(ToJson([sc |-> sc, expect |-> Expect, hist |-> hist,
                                                   end |-> [phase |-> phase, started |-> started, files |-> files]]))
 =============================================================================
